@@ -3,7 +3,7 @@ CONSTANTS
  WIds = {1, 2}
  RIds = {1, 2, 3, 4, 5}
  NIds = {1, 2, 3, 4, 5}
- KeyIds = {1, 2}
+ KeyIds = {1, 2, 3}
  CfgSet <- CfgFault
  Univ <- FaultUniv
  Faulty = "leftover"
